@@ -44,8 +44,8 @@ ASSUME = ["one external event per wait (plus level-triggered write readiness); t
 def parts(tier):
     core = ["--handlers=1", "--nths=1"]
     if tier == "quick":
-        return [("d3-all", ["--depth=3", "--maxconn=2"], 150), ("d4-core", ["--depth=4", "--maxconn=2"] + core, 170)]
-    return [("d4-all", ["--depth=4", "--maxconn=2"], 1300), ("d5-core", ["--depth=5", "--maxconn=2"] + core, 1000)]
+        return [("d3-all", ["--depth=3", "--maxconn=2"], 85), ("d4-core", ["--depth=4", "--maxconn=2"] + core, 100)]
+    return [("d4-all", ["--depth=4", "--maxconn=2"], 1200), ("d5-core", ["--depth=5", "--maxconn=2"] + core, 900)]
 
 def run(ck):
     exe = build(ck)["h_c09"]
